@@ -14,6 +14,7 @@
 package jws
 
 import (
+	"bytes"
 	"crypto/x509"
 	"encoding/base64"
 	"encoding/json"
@@ -77,6 +78,15 @@ func (e *envelope) Sign(req *signature.SignRequest) ([]byte, error) {
 	// [jwt-go]: https://pkg.go.dev/github.com/dgrijalva/jwt-go#MapClaims
 	var payload jwt.MapClaims
 	if err = json.Unmarshal(req.Payload.Content, &payload); err != nil {
+		return nil, &signature.InvalidSignRequestError{
+			Msg: fmt.Sprintf("payload format error: %v", err.Error())}
+	}
+	// decode numbers as json.Number: float64 would silently change integers
+	// beyond 2^53 and rewrite exponents in the payload that gets signed
+	payload = nil
+	decoder := json.NewDecoder(bytes.NewReader(req.Payload.Content))
+	decoder.UseNumber()
+	if err = decoder.Decode(&payload); err != nil {
 		return nil, &signature.InvalidSignRequestError{
 			Msg: fmt.Sprintf("payload format error: %v", err.Error())}
 	}
